@@ -24,6 +24,9 @@ REPO = os.environ.get("DFMC_REPO", "/repo")
 _UNITS = {}  # name -> (fn, bound)   (inherited by forked workers)
 _TIER = "quick"
 _SEED = 0
+# DFMC_FAILFAST=1 (used by tools/mutsweep.py against scratch copies only): stop exploring after the first round that
+# produced a violation.  Ignored when the tree under check is /repo itself, so evidence is never produced this way.
+_FAILFAST = os.environ.get("DFMC_FAILFAST") == "1" and os.path.realpath(REPO) != "/repo"
 
 
 def _load_check(pid):
@@ -96,6 +99,8 @@ def run_check(pid, tier, seed, workers, only_unit=None, dump_instances=False, ti
         _UNITS[name] = (fn, bound)
     exhaustive = True
     for name, (fn, bound) in list(_UNITS.items()):
+        if _FAILFAST and total.violations:
+            break
         tu = time.time()
         try:
             res, roots = engine.expand_frontier(name, fn, tier, seed, bound,
@@ -114,6 +119,9 @@ def run_check(pid, tier, seed, workers, only_unit=None, dump_instances=False, ti
                             roots.extend(getattr(r, "leftover", []))
                             r.leftover = []
                             res.merge(r)
+                        if _FAILFAST and res.violations:
+                            res.notes["cap:failfast"] = 1  # mutation sweeps only: never exhaustive, never evidence
+                            roots = []
                         roots.sort()
                         max_exec = min(max_exec * 2, 5000)
             else:
